@@ -205,6 +205,15 @@ def expectation(req, eapi, W, ED, before):
         return res.status, res.entries, False
     # a regular file cannot replace a directory (install(1) refuses, so does the python path): the request fails
     blocked = any(v["type"] == "file" and (before.get(rel) or {}).get("type") == "dir" for rel, v in res.entries.items())
+    for rel, v in res.entries.items():
+        if v["type"] == "keepfile":
+            continue
+        # nor can anything be created below / a directory be created at something that is not a directory
+        parts = rel.split("/")
+        for i in range(1, len(parts) + (1 if v["type"] == "dir" else 0)):
+            e = before.get("/".join(parts[:i]))
+            if e is not None and e["type"] != "dir":
+                blocked = True
     needs_file = any(v["type"] == "file" for v in res.entries.values())
     needs_dir = any(v["type"] == "dir" for v in res.entries.values())
     fkey = {"doins": "insopts", "doexe": "exeopts"}.get(h)
@@ -791,7 +800,8 @@ def _src():
 @st.composite
 def request(draw, allow_fault=True):
     kind = draw(st.sampled_from([
-        "ok_files", "ok_files", "ok_files", "ok_files", "missing", "missing", "dir_no_r", "noman", "ext_ok", "ext_fail",
+        # (hypothesis favours early elements: the expensive-to-reach classes come first)
+        "blocked", "unpack_bad", "ext_ok", "ext_fail", "ok_files", "ok_files", "ok_files", "ok_files", "missing", "missing", "dir_no_r", "noman", "ext_ok", "ext_fail",
         "dirext_ok", "dirext_fail", "dodir", "dodir", "keepdir", "keepdir", "dosym", "dosym", "dosym_bad", "recursive",
         "recursive", "noargs", "badopt", "docompress", "dostrip", "eapply_ok", "eapply_bad", "eapply_missing",
         "filter_env", "blocked", "blocked", "blocked", "unpack_ok", "unpack_bad", "unpack_bad", "unpack_missing"]))
@@ -882,7 +892,7 @@ def request(draw, allow_fault=True):
         victim = draw(st.sampled_from(files))
         # fallback variants carry -T (destination is the file itself): without it install(1) silently puts the file
         # INSIDE the blocking directory and exits 0, a GNU-ism outside what the property statement pins down
-        opt = draw(st.sampled_from(["-m0644", "-m0644", "-m0644 -T", "-m0644 -T -c", "-m0600 -T -C", "-T -m0644"]))
+        opt = draw(st.sampled_from(["-m0644 -T", "-m0644", "-m0644 -T -c", "-m0600 -T -C", "-m0644", "-T -m0644"]))
         env = {("insinto" if h == "doins" else "exeinto"): dest, ("insopts" if h == "doins" else "exeopts"): opt}
         args = files
         blocker = {"helper": "dodir", "env": {}, "args": [dest + "/" + victim], "nonfatal": True, "kind": "blocker", "fault": None}
